@@ -324,7 +324,8 @@ def _is_iterable_of_pairs(val: t.Any) -> tuple[bool, t.Any]:
         return is_pairs, val
 
     it = peekable(val)
-    peek = it.peek()
+    # An exhausted (empty) iterator has nothing to peek at - and is not made of pairs.
+    peek = it.peek(())
     is_pairs = inspection.iscollectiontype(peek.__class__) and len(peek) == 2
     return is_pairs, it
 
